@@ -179,8 +179,9 @@ def verdict(prop, agg, runs, kinds, listed, gen):
             known.append("%s [witnessed in %d replayed behaviours, on the specification AND on the real engine]" % (f["what"], n))
     if drift:
         notes.append("model drift: in %d behaviours the engine asked/answered differently from Sync.tla without affecting the outcome checked here (see evidence)" % st.get("drifted-behaviours", drift))
-    if st.get("inconclusive-behaviours", 0) > max(5, agg["behaviours"] // 50) and not viol:
-        # (with decisive observations at hand the time-outs are more likely the code's doing than the machine's)
+    if st.get("inconclusive-behaviours", 0) > max(5, agg["behaviours"] // 50):
+        # (no verdict from such a run, whatever else it observed: on a machine that cannot even hand out ports the
+        # "decisive" observations are not decisive - the final evidence run of C06 showed five of them)
         raise c.Infra("the machine was too busy: %d of %d behaviours had a synchronisation barrier time out" % (st["inconclusive-behaviours"], agg["behaviours"]))
     if st.get("inconclusive-behaviours", 0):
         notes.append("%d behaviours were discarded because a synchronisation barrier timed out (busy machine)" % st["inconclusive-behaviours"])
